@@ -277,7 +277,11 @@ func (h *c01) localise() {
 			sure = []string{best}
 		}
 		sort.Strings(sure)
-		r.Sig = parts[0] + ":" + parts[2] + ":" + strings.Join(sure, ",")
+		obs := parts[2] // output-diff:<fam>:<observable>:...   proc-diff:<observable>:<fam>:...
+		if parts[0] == "proc-diff" {
+			obs = parts[1]
+		}
+		r.Sig = parts[0] + ":" + obs + ":" + strings.Join(sure, ",")
 	}
 }
 
